@@ -1372,7 +1372,7 @@ class Engine:
             hi = self.norm_index(hi_v, n, n)
             hi = simp(z3.If(hi < lo, lo, hi))
             # a fresh list whose elements are those of the slice (pointwise, quantified)
-            res = z3.Const(fresh_name('slice'), sh.sort())
+            res = T.list_fn('lslice', sh, [T.IntS, T.IntS])(c.term, lo, hi)
             j = z3.Int('j!s')
             st.assume(sh.len(res) == hi - lo)
             st.assume(z3.ForAll([j], z3.Implies(z3.And(0 <= j, j < hi - lo),
@@ -1446,7 +1446,7 @@ class Engine:
         sh = a.shape
         if isinstance(b, ZV) and False:
             pass
-        res = z3.Const(fresh_name('cat'), sh.sort())
+        res = T.list_fn('lcat', sh, [sh.sort()])(a.term, b.term)
         j = z3.Int('j!c')
         la, lb = sh.len(a.term), sh.len(b.term)
         st.assume(sh.len(res) == la + lb)
@@ -1466,7 +1466,7 @@ class Engine:
         i = self.as_int(k)
         n = sh.len(c.term)
         self.safety(st, z3.And(0 <= i, i < n), 'index', node)
-        res = z3.Const(fresh_name('del'), sh.sort())
+        res = T.list_fn('ldel', sh, [T.IntS])(c.term, i)
         j = z3.Int('j!d')
         st.assume(sh.len(res) == n - 1)
         st.assume(z3.ForAll([j], z3.Implies(z3.And(0 <= j, j < n - 1),
@@ -1491,7 +1491,7 @@ class Engine:
         i0 = self.as_int(self.eval(sl.lower, st))
         i = simp(z3.If(i0 > n, n, i0))
         self.safety(st, i0 >= 0, 'index', node)
-        res = z3.Const(fresh_name('splice'), sh.sort())
+        res = T.list_fn('lsplice', sh, [T.IntS, sh.sort()])(c.term, i, v.term)
         j = z3.Int('j!p')
         st.assume(sh.len(res) == n + m)
         st.assume(z3.ForAll([j], z3.Implies(z3.And(0 <= j, j < n + m),
